@@ -99,13 +99,41 @@ func c11ReadIndex(c *Check) {
 		}
 	}
 	// C11.Q: no answer without a quorum round (or singleton / lease mode)
+	type respSite struct {
+		cs         CallSite
+		iReq, iIdx int
+	}
+	var respSites []respSite
 	for _, cs := range p.CallsTo(respond) {
+		respSites = append(respSites, respSite{cs, 1, 2})
+	}
+	for si := 0; si < len(respSites) && si < 64; si++ {
+		cs := respSites[si].cs
 		fi := p.Info(cs.Caller)
 		site := p.site(cs.Instr)
 		args := callArgs(cs.Instr)
 		r := fi.Sym(args[0])
-		req := fi.Sym(args[1])
-		ri := fi.Sym(args[2])
+		req := fi.Sym(args[respSites[si].iReq])
+		ri := fi.Sym(args[respSites[si].iIdx])
+		// a wrapper that forwards its own (req, index) parameters: classified at its callers
+		if req.K == KParam && ri.K == KParam && cs.Caller != respond {
+			jr, ji := -1, -1
+			for pi, prm := range cs.Caller.Params {
+				if ssa.Value(prm) == req.V {
+					jr = pi
+				}
+				if ssa.Value(prm) == ri.V {
+					ji = pi
+				}
+			}
+			if jr >= 0 && ji >= 0 && len(p.CallsTo(cs.Caller)) > 0 {
+				for _, cs2 := range p.CallsTo(cs.Caller) {
+					respSites = append(respSites, respSite{cs2, jr, ji})
+				}
+				c.OkTrivial("C11.Q", "read-index response wrapper", fnName(cs.Caller), site, "forwards its (request, index) parameters; classified at its callers", "")
+				continue
+			}
+		}
 		direct := ri.K == KField && ri.Fld == committedF
 		if direct {
 			f := fi.FactsAt(cs.Instr)
